@@ -208,7 +208,7 @@ def terms_for(c, o):
 FAM = {'text': ('c11text', 'c11text_agree'), 'bam': ('c11bam', 'c11bam_agree'), 'idx': ('c11idx', 'c11idx_agree'), 'cram': ('c11cram', 'c11cram_agree')}
 
 
-CAP = {'quick': 45, 'thorough': 1500}
+CAP = {'quick': 100, 'thorough': 1500}
 
 
 def correspond(cases, obs, labels=None, tier='quick'):
